@@ -103,3 +103,13 @@ SPEC("pane.field", "Field.has_default",
      ensures=[(lambda self, result: truthy(result) == ((self.default is not MISSING) or (self.default_factory is not None)), ["C14", "C15"], "has-default"),
               (lambda self, result: isinstance(result, bool), ["C14"], "bool")],
      total=True, no_raise=["C14"])
+
+
+# field(): the annotation record; `hash` defaults to `compare` (equal instances must hash equal, C16), everything else verbatim
+SPEC("pane.field", "field",
+     ensures=[(lambda rename, in_names, aliases, out_name, init, exclude, repr, hash, compare, default, default_factory, kw_only, converter, result:
+               result.hash == ite(is_none(hash), compare, hash) and result.compare is compare, ["C16"], "hash-follows-compare"),
+              (lambda rename, in_names, aliases, out_name, init, exclude, repr, hash, compare, default, default_factory, kw_only, converter, result:
+               result.rename is rename and result.in_names is in_names and result.out_name is out_name and result.init is init
+               and result.exclude is exclude and result.repr is repr and result.default is default and result.default_factory is default_factory
+               and result.kw_only is kw_only and result.converter is converter, ["C14", "C15", "C16"], "verbatim")])
